@@ -25,6 +25,7 @@ import (
 	"go/token"
 	"os"
 	"path/filepath"
+	"runtime"
 	"sort"
 	"strings"
 	"time"
@@ -709,7 +710,7 @@ func main() {
 		"A case is non-trivial when the full sequence comparison applied (extension-free, no error, outside the known-finding class); distinct by mode+input bytes")
 	h := &harness{a: a, rep: rep, stride: 20}
 	if a.Thorough() {
-		h.stride = 40
+		h.stride = 100
 	}
 	h.wd = vh.NewWatchdog(rep, 20*time.Second)
 	h.cw = vh.NewCases(a, caseHeader, "case", "mismatches", 150)
@@ -880,7 +881,7 @@ func goroot() string {
 	if g := os.Getenv("GOROOT"); g != "" {
 		return g
 	}
-	for _, g := range []string{"/usr/lib/go-1.23", "/usr/local/go", "/usr/lib/go"} {
+	for _, g := range []string{runtime.GOROOT(), "/usr/lib/go-1.23", "/usr/local/go", "/usr/lib/go"} {
 		if _, err := os.Stat(filepath.Join(g, "src", "go", "scanner", "scanner.go")); err == nil {
 			return g
 		}
